@@ -2,6 +2,7 @@ import Driver.Proto
 import Driver.C06
 import Driver.C07
 import Driver.C08
+import Driver.C01
 namespace Driver
 
 def dispatch (op : String) : Option Handler :=
@@ -18,6 +19,9 @@ def dispatch (op : String) : Option Handler :=
   | "imath" => some C07.imath
   | "f64" => some C07.f64
   | "f2i" => some C07.f2i
+  | "rt" => some C01.rt
+  | "rd" => some C01.rd
+  | "style" => some C01.style
   | "bin8" => some C08.bin8
   | "comm8" => some C08.comm8
   | "un8" => some C08.un8
